@@ -237,7 +237,7 @@ func execC17(t *testing.T, prog *hx.Program, dec *simrt.Decider, verbose bool) *
 						h.oc.Trouble = "no controller after restart"
 						return
 					}
-					h.waitFor("partition", 10*time.Second, func() bool {
+					h.pollFor("partition", 10*time.Second, func() bool {
 						p := n.srv.metadata.GetPartition("enc", 0)
 						return p != nil && p.IsLeader()
 					})
